@@ -23,6 +23,7 @@ type Config struct {
 	Preemptions int
 	NoPanic     bool // a panic escaping the harness is a violation
 	NoDeadlock  bool // a deadlock is a violation (default: true when threads are used)
+	NoLivelock  bool // exhausting the instruction budget is a violation (bounded termination), not inconclusive
 	Workers     int
 	SolverName  string
 	TimeoutMs   int
@@ -663,11 +664,11 @@ func (p *Program) Explore(cfg Config) *Result {
 						if cfg.StopAtFirst {
 							stop = true
 						}
-					case abortDeadlock:
+					case abortDeadlock, abortLivelock:
 						res.Deadlocked++
-						outcome = "deadlock"
-						if cfg.NoDeadlock {
-							v := &Violation{Harness: cfg.Harness, Kind: "deadlock", Label: "deadlock", Detail: pr.abort.msg, Values: m.lastModel, Events: m.events, KnownID: m.inKnown}
+						outcome = abortNames[pr.abort.kind]
+						if cfg.NoDeadlock || pr.abort.kind == abortLivelock {
+							v := &Violation{Harness: cfg.Harness, Kind: outcome, Label: outcome, Detail: pr.abort.msg, Values: m.lastModel, Events: m.events, KnownID: m.inKnown}
 							for _, nv := range m.ndVars {
 								v.Order = append(v.Order, nv.Name)
 							}
@@ -797,7 +798,7 @@ func (p *Program) runPath(cfg *Config, fn *ssa.Function, prefix []pdec, solver *
 			}
 		}()
 	}
-	isDeadlock := pr.abort != nil && pr.abort.kind == abortDeadlock
+	isDeadlock := pr.abort != nil && (pr.abort.kind == abortDeadlock || pr.abort.kind == abortLivelock)
 	if pr.panicked || isDeadlock || len(m.forks) > 0 || len(prefix) == 0 {
 		func() {
 			defer func() {
